@@ -65,3 +65,21 @@ poll_impl!(
 );
 impl<F: Future> Vw for tokio::time::Timeout<F> { type Out = <tokio::time::Timeout<F> as Future>::Output; fn vw(self) -> Self::Out { once(self) } }
 impl<T> Vw for tokio::task::JoinHandle<T> { type Out = <tokio::task::JoinHandle<T> as Future>::Output; fn vw(self) -> Self::Out { once(self) } }
+
+// ------------------------------------------------------------------------------------------
+// wire tap: stands in for the hand-off of an outgoing datagram to the ICE connection where a spec cuts it
+// ------------------------------------------------------------------------------------------
+pub static mut TAP_COUNT: usize = 0;
+pub static mut TAP_LAST: Option<Vec<u8>> = None;
+/// record one outgoing datagram; returns its length like the socket would
+pub fn tap_res(b: &[u8]) -> anyhow::Result<usize> {
+    unsafe {
+        *core::ptr::addr_of_mut!(TAP_COUNT) += 1;
+        // the previous record is leaked, not dropped (drop glue of heap values is never the subject of a harness)
+        core::mem::forget((*core::ptr::addr_of_mut!(TAP_LAST)).take());
+        *core::ptr::addr_of_mut!(TAP_LAST) = Some(b.to_vec());
+    }
+    Ok(b.len())
+}
+pub fn tap_count() -> usize { unsafe { *core::ptr::addr_of!(TAP_COUNT) } }
+pub fn tap_last() -> Option<&'static Vec<u8>> { unsafe { (*core::ptr::addr_of!(TAP_LAST)).as_ref() } }
